@@ -220,3 +220,61 @@ func vfDegenerateAForgeries(r *vkit.Report, prop string, keyNames []string) {
 		}
 	}
 }
+
+// vfDegenerateUForgeries: issuance commitment proofs whose U is not a unit modulo n.  As with A in a
+// disclosure proof, every power of such a U is 0: a verifier that goes along reconstructs the same
+// commitment whatever the responses are and accepts a "proof of knowledge" of nothing.
+func vfDegenerateUForgeries(r *vkit.Report, prop string, keyNames []string) {
+	for _, keyName := range keyNames {
+		pk := vfK(keyName).Pk
+		N := pk.N
+		for _, dv := range []struct {
+			name string
+			u    *big.Int
+		}{{"0", vfInt(0)}, {"n", vfCopy(N)}, {"2n", new(big.Int).Lsh(N, 1)}, {"n(n+1)", new(big.Int).Mul(N, new(big.Int).Add(N, vfInt(1)))}} {
+			for _, blind := range []bool{false, true} {
+				if _, mine := r.Next(); !mine {
+					continue
+				}
+				r.Eval()
+				desc := fmt.Sprintf("%s: forged issuance commitment proof with U=%s (random-blind response: %v)", keyName, dv.name, blind)
+				r.Nontrivial(prop + "|" + desc)
+				forged := &ProofU{U: vfCopy(dv.u), VPrimeResponse: vfInt(5), SResponse: vfInt(5), MUserResponses: map[int]*big.Int{}}
+				if blind {
+					forged.MUserResponses[2] = vfInt(5)
+				}
+				c := vfInt(1)
+				found := false
+				for iter := 0; iter < 4 && !found; iter++ {
+					forged.C = c
+					view := &ProofU{}
+					var l []*big.Int
+					var err error
+					if pan, _ := vkit.Guard(func() { vfJSONCopy(forged, view); l, err = view.ChallengeContribution(pk) }); pan || err != nil {
+						break
+					}
+					c2 := createChallenge(vfContext, vfNonce, l, false)
+					found = c2.Cmp(c) == 0
+					c = c2
+				}
+				if !found {
+					r.Outcome("degenerate-U:refused-or-no-fixed-point")
+					continue
+				}
+				var acc bool
+				q := &ProofU{}
+				vfJSONCopy(forged, q)
+				vkit.Guard(func() { acc = ProofList{q}.Verify([]*gabikeys.PublicKey{pk}, vfContext, vfNonce, false, nil) })
+				if !acc {
+					q2 := &ProofU{}
+					vfJSONCopy(forged, q2)
+					vkit.Guard(func() { acc = q2.Verify(pk, vfContext, vfNonce) })
+				}
+				r.Outcome(fmt.Sprintf("degenerate-U:fixed-point:accepted=%v", acc))
+				if acc {
+					r.Violate(prop+"|forged-commitment-proof-with-degenerate-U-accepted", desc+": accepted (no secret behind it)", map[string]any{"key": keyName, "U": dv.name})
+				}
+			}
+		}
+	}
+}
